@@ -277,8 +277,56 @@ def cross_command_stage(rep):
     return n
 
 
+def concurrent_stage(rep):
+    """Two overlapping requests with DIFFERENT shapes on one protocol object; the peer answers every transmission with
+    a frame that is well-formed for its own request, for the OTHER caller's request, or not at all (exhaustive over the
+    first four transmissions, start offsets, transports, keep-alive).  Whatever a caller gets back must be a well-formed
+    answer to that very request."""
+    import asyncio
+    import itertools
+    n = 0
+    counts = (10, 5)
+    for tr in ('udp', 'tcp'):
+        framing = 'tcp' if tr == 'tcp' else 'rtu'
+        for ka in (False, True):
+            for off in (0.0, 0.3):
+                for script in itertools.product(('own', 'other', 'drop'), repeat=4):
+                    world.reset()
+
+                    def plan(k, req, now):
+                        letter = script[k] if k < len(script) else 'own'
+                        if letter == 'drop':
+                            return []
+                        rq = wire.parse_request(req)
+                        c = rq['count'] if letter == 'own' else (counts[1] if rq['count'] == counts[0] else counts[0])
+                        pl = bytes((7 * i + c) & 0xFF for i in range(2 * c))
+                        f = wire.tcp_read_resp(req[:2], 0xF7, pl) if framing == 'tcp' else wire.rtu_read_resp(0xF7, pl)
+                        return [(D0, ('data', f))]
+                    peer = PlanPeer(plan)
+                    loop = KLoop(peer)
+                    p = make_protocol(tr, 1, 1, ka)
+                    out = {}
+
+                    async def caller(i):
+                        if i and off:
+                            await asyncio.sleep(off)
+                        out[i] = await _exec(p.read_command(0x891C + 100 * i, counts[i]), p)
+
+                    async def main():
+                        await asyncio.gather(caller(0), caller(1))
+                    st, _ = loop.run(main())
+                    n += 1
+                    for i in (0, 1):
+                        r = out.get(i)
+                        if r and r[0] == 'ok' and wire.classify_response(framing, dict(kind='read', count=counts[i]), r[1]) != 'wellformed':
+                            rep.add(f'delivered-malformed/{framing}/overlapping-requests', 'a caller got a frame that does not answer its own request',
+                                    dict(part='C', transport=tr, ka=ka, offset=off, script=list(script)),
+                                    dict(cause=f'caller {i} (count {counts[i]}) completed with {len(r[1])} bytes', script=list(script)))
+    return n
+
+
 def run(tier, seed, rep):
-    ncross = cross_command_stage(rep)
+    ncross = cross_command_stage(rep) + concurrent_stage(rep)
     jobs = []
     for framing in ('rtu', 'tcp', 'aa55'):
         specs = specs_for(framing, tier)
@@ -329,6 +377,11 @@ def run(tier, seed, rep):
 
 
 def replay(r):
+    if r['part'] == 'C':
+        from ..findings import Report
+        rp = Report('C01')
+        concurrent_stage(rp)
+        return dict(violations=sorted(rp.by_key))
     if r['part'] == 'E':
         spec = tuple(r['spec'])
         cmd, desc = make_cmd(r['framing'], spec)
